@@ -97,3 +97,8 @@ pub fn c12_pad_headers_load_1() { headers_load_fixed::<1>() }
 pub fn c12_pad_headers_load_3() { headers_load_fixed::<3>() }
 pub fn c12_pad_headers_load_6() { headers_load_fixed::<6>() }
 pub fn c12_pad_headers_load_9() { headers_load_fixed::<9>() }
+
+/// a parked CONTINUATION remainder (what `Headers::encode` returns when the block does not fit one frame)
+pub(crate) fn mk_continuation(stream_id: StreamId) -> Continuation {
+    Continuation { stream_id, header_block: EncodingHeaderBlock { hpack: BytesMut::new() } }
+}
